@@ -49,7 +49,15 @@ def text_spelled(f, fa, fb):
     return text(f)
 
 
-def h_grid(f, N, P, mode='offline', spell=None):
+def h_grid(f, N, P, mode='offline', spell=None, defs=None, reparse=None):
+    main = T(f)
+    if defs:
+        from .c09 import inline
+        defs = [(n, T(d)) for n, d in defs]
+        dd = {}
+        for n, d in defs:
+            dd[n] = inline(d, dd)
+        f = inline(main, dd)
     f = T(f)
     P = Fraction(P)
     vs = sorted(variables(f))
@@ -66,6 +74,23 @@ def h_grid(f, N, P, mode='offline', spell=None):
             disc = [p[1] for p in dt.offline(sd, w, N)]
             sc = ct.make_spec(mode, txt, vs, unit=unit)
             args = [[v, [[k * scale, w[v][k]] for k in range(N)]] for v in vs]
+        elif defs or reparse:
+            # several assertions in one specification text (named sub-formulas first, 'out' last), or a specification object that was
+            # parsed with another formula before: both monitors must report the LAST assertion
+            scale = None
+            txt = ''.join('%s = %s;\n' % (n, text(d)) for n, d in (defs or [])) + 'out = ' + text(main) + ';'
+            names = [n for n, _ in (defs or [])]
+            def mk(make, kind):
+                if not reparse:
+                    return make(kind, txt, vs + names)
+                sp = make(kind, 'out = ' + text(T(reparse)), vs + names)
+                sp.spec = txt
+                sp.parse()
+                return sp
+            sd = mk(dt.make_spec, 'offline')
+            disc = [p[1] for p in dt.offline(sd, w, N)]
+            sc = mk(ct.make_spec, mode)
+            args = [[v, [[float(k), w[v][k]] for k in range(N)]] for v in vs]
         else:
             scale = None
             txt = 'out = ' + text_scaled(f, P)
@@ -150,6 +175,23 @@ def obligations(tier, rng):
         for name, fa, fb, unit, scale, per in SP[2:5]:
             out.append(ob('C19', 'grid', 'units/offline/%s/%s/N=5' % (name, text_spelled(f, fa, fb)), f=f, N=5, P='1', spell=[fa, fb, unit, scale, list(per)],
                           max_paths=40000, wall=900))
+    # several assertions in one text / a specification object parsed before with another formula
+    Pv, Qv = ('var', 'p'), ('var', 'q')
+    multi = [([['p', ('once_t', X, 0, 2)]], ('sub', ('eventually_t', Pv, 0, 2), Y)), ([['p', ('geq', X, ('const', 1.0))]], ('historically', Pv)),
+             ([['p', ('abs', X)], ['q', ('once', Pv)]], ('and', Qv, ('not', Pv))), ([['p', ('always_t', X, 0, 1)]], ('or', Pv, Y))]
+    for defs, m in multi:
+        from .c09 import inline as _inl
+        dd = {}
+        for n, d in defs:
+            dd[n] = _inl(T(d), dd)
+        full = _inl(T(m), dd)
+        N = hor(full) + 3
+        for mode in ['offline'] + ([] if refsem.has_future(full) else ['online']):
+            out.append(ob('C19', 'grid', 'multi/%s/%s/out=%s' % (mode, ';'.join('%s=%s' % (n, text(d)) for n, d in defs), text(m)), f=m, N=N, P='1', mode=mode,
+                          defs=defs, max_paths=40000, wall=900))
+    for f, old in [(('once_t', X, 0, 1), ('historically', X)), (('and', X, ('not', Y)), ('or', X, Y)), (('eventually_t', ('neg', X), 0, 1), ('always_t', X, 0, 2))]:
+        for mode in ['offline'] + ([] if refsem.has_future(f) else ['online']):
+            out.append(ob('C19', 'grid', 'reparse/%s/%s/was=%s' % (mode, text(f), text(old)), f=f, N=hor(f) + 3, P='1', mode=mode, reparse=old, max_paths=40000, wall=900))
     # nestings of the unbounded past operators (they share visitor fields in the dense-time monitor)
     for k1 in ('once', 'historically'):
         for k2 in ('once', 'historically'):
